@@ -268,22 +268,46 @@ theorem read_wellformed {s : Store} {head : String} {e : Entity} (h : Dag.read s
       split at h
       · cases h
       · rename_i h2
-        cases h
-        obtain ⟨hr, hk, hc, hpk⟩ := pass1_ok h1
-        refine ⟨order, m, hb, ⟨by omega, hk, hc, hpk, pass2_ok h2⟩, rfl, rfl, rfl⟩
+        unfold mkEntity at h
+        split at h
+        · cases h
+        · cases h
+          obtain ⟨hr, hk, hc, hpk⟩ := pass1_ok h1
+          refine ⟨order, m, hb, ⟨by omega, hk, hc, hpk, pass2_ok h2⟩, rfl, rfl, rfl⟩
 
 /-- `wellformed_read`: conversely a well-formed history is never refused. -/
 theorem wellformed_read {s : Store} {head : String} {order : List Commit}
     (hb : bfs s (s.length + 1) [head] [head] [] = .ok order)
     (hroot : rootsIn order ≤ 1)
     (hc : ∀ c ∈ order, ∃ p, CommitOK c p)
-    (he : ∀ m, pass1 order 0 = .ok m → ∀ c ∈ order, ∃ p, packOf m c.hash = some p ∧ EdgeOK m c p) :
+    (he : ∀ m, pass1 order 0 = .ok m → ∀ c ∈ order, ∃ p, packOf m c.hash = some p ∧ EdgeOK m c p)
+    (hops : ∀ m, pass1 order 0 = .ok m → (opsOf (m.map (·.2))).isEmpty = false) :
     ∃ e, Dag.read s head = .ok e := by
   obtain ⟨m, hm⟩ := pass1_complete (r := 0) (by omega) hc
   have h2 := pass2_complete (he m hm)
-  unfold Dag.read
-  simp only [hb, hm, h2]
+  unfold Dag.read mkEntity
+  simp only [hb, hm, h2, hops m hm]
   exact ⟨_, rfl⟩
+
+/-- a history whose packs carry no operation at all is refused (an entity is its first operation) -/
+theorem refuses_without_operations {s : Store} {head : String} {e : Entity} (h : Dag.read s head = .ok e) :
+    e.ops ≠ [] := by
+  unfold Dag.read at h
+  split at h
+  · cases h
+  · split at h
+    · cases h
+    · split at h
+      · cases h
+      · unfold mkEntity at h
+        split at h
+        · cases h
+        · rename_i hne
+          cases h
+          intro hnil
+          simp only at hnil
+          rw [hnil] at hne
+          simp at hne
 
 /-! ## refusals (contrapositives of `read_wellformed`, one per class) -/
 
@@ -461,7 +485,7 @@ theorem gen_read_comparisons :
       "len(opp.Operations) > 0", "opp.CreateTime <= 0", "len(commit.Parents) > 1",
       "parentPack.EditTime >= opp.EditTime", "opp.EditTime-parentPack.EditTime > 1_000_000",
       "oppSlice[i].EditTime != oppSlice[j].EditTime", "oppSlice[i].EditTime < oppSlice[j].EditTime",
-      "oppSlice[i].Id() < oppSlice[j].Id()", "pack.CreateTime > createTime", "pack.EditTime > editTime"] := by
+      "oppSlice[i].Id() < oppSlice[j].Id()", "pack.CreateTime > createTime", "pack.EditTime > editTime", "len(ops) == 0"] := by
   decide
 
 /-! ## non-vacuity: a fork with branches of unequal length (1 vs 2 commits) and a merge -/
